@@ -157,6 +157,9 @@ fn step<T: BE>(m: &mut Banded<T>, op: &Value) -> Result<Res<T>, String> {
             "set_all" => { let n = m.size(); let d = op["vals"]["d"].as_array().unwrap(); let di = op.get("valsi").map(|v| v["d"].as_array().unwrap());
                 for i in 0..n { for j in 0..n { if in_band(n, m.size_below(), m.size_above(), i, j) { m[(i, j)] = scal::<T>(&d[i * n + j], if T::CX { di.map(|x| &x[i * n + j]) } else { None }); } } } Res::None }
             "det" => Res::Det(m.det()),
+            // the same calls on a clone of the object (a clone shares nothing with the original but its value)
+            "clone_det" => Res::Det(m.clone().det()),
+            "clone_solve" => { let b = vec_of::<T>(&op["b"], if T::CX { op.get("bi") } else { None }); Res::X(m.clone().solve(&b)) }
             "solve" => { let b = vec_of::<T>(&op["b"], if T::CX { op.get("bi") } else { None }); Res::X(m.solve(&b)) }
             other => tool_error(&format!("unknown banded op {}", other)),
         }
@@ -171,7 +174,9 @@ fn run_hist_from<T: BE>(case: &Value, out: &mut Out, k0: usize) {
     let mut m = match if k0 == 0 { construct::<T>(case, out) } else { guarded(|| band_from::<T>(&case["band"])).ok() } { Some(m) => m, None => return };
     for (k, op) in case["ops"].as_array().unwrap().iter().enumerate() {
         let k = k + k0;
-        let name = gets(op, "op");
+        // a DIFFERENT object on the same thread, in the middle of the history: its own (stand-alone) events
+        if gets(op, "op") == "other" { let mut sub = op["case"].clone(); sub["cid"] = json!(cid); run_hist_from::<T>(&sub, out, 1000 * (k + 1)); continue; }
+        let name = match gets(op, "op") { "clone_solve" => "solve", "clone_det" => "det", s => s };
         let pre = [jband(&m, Part::Re), jband(&m, Part::Im)];
         let r = step(&mut m, op);
         let post = [jband(&m, Part::Re), jband(&m, Part::Im)];
@@ -184,6 +189,10 @@ fn run_hist_from<T: BE>(case: &Value, out: &mut Out, k0: usize) {
         if name == "det" || name == "solve" {
             let mut e = base(0); if let Some(m) = e.as_object_mut() { m.remove("post"); m.remove("part"); }
             let n = getu(&pre[0], "n");
+            if name == "solve" && op["b"].as_array().map(|a| a.len()).unwrap_or(n) != n {
+                // right-hand side of another size: the call must refuse, whatever the element type
+                e["b"] = op["b"].clone(); e["xs"] = Value::from(vec![BAD; n]); e["L"] = json!(BAD); out.ev(e); continue;
+            }
             if T::NAME == "rat" {
                 if name == "det" { e["rq"] = match &res { Res::Det(d) => rat_of(d), _ => json!([BAD, 1]) }; }
                 else { let (xs, l) = match &res { Res::X(x) => jxs(common_den(&x.vec.iter().map(rat_val).collect::<Vec<Rat>>(), LIM), n), _ => jxs(None, n) }; e["b"] = op["b"].clone(); e["xs"] = xs; e["L"] = l; }
@@ -624,6 +633,10 @@ pub fn gen(tier: &str, seed: u64, out: &mut Out) {
         for (m1, m2) in geos { let mut v = vec![]; scaled_cases(&mut rng, n, m1, m2, quick, &mut v); for c in v { push(out, c); } }
     }
     { let mut sink = |c: Value| push(out, c); exact_and_sweep(&mut rng, quick, seed, &mut sink); }
+    // (j) binary operations on operands that agree in every aggregate a storage check could see but differ in geometry
+    { let mut sink = |c: Value| push(out, c); mismatch_cases(&mut rng, quick, &mut sink); }
+    // (k) what a refused call leaves behind: the same object, a clone and another object right after it
+    { let mut sink = |c: Value| push(out, c); poison_cases(&mut rng, quick, &mut sink); }
     // (i) the product for sizes beyond the number of CPUs (n up to 40), both forms, all element types; and a sample of the
     //     small-n battery re-run with the process restricted to 1, 2 and 3 CPUs
     { let mut t = 0usize;
@@ -1081,5 +1094,112 @@ fn exact_and_sweep(rng: &mut StdRng, quick: bool, seed: u64, push: &mut dyn FnMu
         }
         // (finer grid in the subnormal range and next to the overflow threshold)
         k += if k < -1016 || k >= 996 { (step as i64).min(2) } else { step as i64 };
+    }
+}
+
+// ------------------------------------------------------------------ operands of different geometry; refused calls and what follows
+/// Partners of (n, m1, m2) for a binary operation: first the ones with the same n and the same m1 + m2 but another split
+/// (identical storage shape), then the same number of slots with another n, then one bandwidth / the size off by one.
+fn partners(n: usize, m1: usize, m2: usize) -> (Vec<(usize, usize, usize)>, usize) {
+    let mut v = vec![]; let s = m1 + m2;
+    for p in 0..n { if p <= s && s - p < n && p != m1 { v.push((n, p, s - p)); } }
+    let first = v.len();
+    let slots = n * (s + 1);
+    for n2 in 1..=12usize { if n2 != n && slots % n2 == 0 { let mm = slots / n2; for p in 0..n2 { if mm >= p + 1 && mm - 1 - p < n2 { v.push((n2, p, mm - 1 - p)); } } } }
+    if m1 + 1 < n { v.push((n, m1 + 1, m2)); } if m1 > 0 { v.push((n, m1 - 1, m2)); }
+    if m2 + 1 < n { v.push((n, m1, m2 + 1)); } if m2 > 0 { v.push((n, m1, m2 - 1)); }
+    if m1 > 0 && m2 > 0 { v.push((n, m1 - 1, m2 - 1)); } if m1 + 1 < n && m2 + 1 < n { v.push((n, m1 + 1, m2 + 1)); }
+    v.push((n + 1, m1, m2)); if n > 1 && m1 + 1 < n && m2 + 1 < n { v.push((n - 1, m1, m2)); }
+    (v, first)
+}
+fn mismatch_cases(rng: &mut StdRng, quick: bool, push: &mut dyn FnMut(Value)) {
+    let names = ["add", "sub", "add_assign", "sub_assign"]; let mut t = 0usize;
+    for n in 1..=(if quick { 7usize } else { 8 }) { for m1 in 0..n { for m2 in 0..n {
+        let (mut ps, first) = partners(n, m1, m2);
+        if quick { let mut rest = ps.split_off(first.min(ps.len())); ps.truncate(4); for _ in 0..3 { if !rest.is_empty() { let k = rng.gen_range(0..rest.len()); ps.push(rest.swap_remove(k)); } } }
+        let tys: Vec<&str> = if quick { vec![TYS[(t + n) % 3]] } else { TYS.to_vec() };
+        for ty in tys { let cx = ty == "cx";
+            let mut band = rand_band_int(rng, n, m1, m2, -9, 9); if cx { band = with_im(rng, band, -9, 9); }
+            let mut ops = vec![];
+            for (q, p) in ps.iter().enumerate() { t += 1;
+                let nzb = |rng: &mut StdRng| { let mut b = rand_band_int(rng, p.0, p.1, p.2, 1, 9); if cx { b = with_im(rng, b, -9, 9); } b };
+                // in quick, one operation per partner (all four on the partners of identical storage shape)
+                let which: Vec<usize> = if !quick || q < first.min(2) { vec![0, 1, 2, 3] } else { vec![t % 4] };
+                for w in which { ops.push(json!({"op": names[w], "form": if (t + w) % 2 == 0 { "own" } else { "ref" }, "b": nzb(rng)})); }
+                if q % 3 == 0 { ops.push(json!({"op": "dense"})); }
+            }
+            let mut same = rand_band_int(rng, n, m1, m2, -9, 9); if cx { same = with_im(rng, same, -9, 9); }
+            ops.push(json!({"op": "add_assign", "form": "ref", "b": same})); ops.push(json!({"op": "dense"}));
+            push(json!({"kind": "hist", "fam": "mismatch", "ty": ty, "band": band, "ops": ops}));
+        }
+    } } }
+}
+/// zero the slots of column k (both parts)
+fn zero_column(band: &mut Value, k: usize) {
+    let (n, m1, mm) = (getu(band, "n"), getu(band, "m1"), getu(&band["c"], "c"));
+    for part in ["c", "ci"] { if band.get(part).is_none() { continue; }
+        for i in 0..n { for c in 0..mm { if i + c == k + m1 { band[part]["d"][i * mm + c] = json!(0); } } } }
+}
+fn dense_of(band: &Value) -> Vec<Vec<i128>> { Sim::from_band(band).dense() }
+/// Sequences around refused calls.  The object starts SINGULAR (column k is zero: no pivot candidate at step k - the first,
+/// a middle and the last step; n = 1: the zero entry); det / solve, a right-hand side of another size and out-of-range
+/// accessors are followed at once by the same calls again, by the calls on a clone and on other objects, by mutators that
+/// keep the matrix singular and by the assignment that repairs it (then solve and det must be right), and back.
+fn poison_cases(rng: &mut StdRng, quick: bool, push: &mut dyn FnMut(Value)) {
+    let mut t = 0usize;
+    for n in 1..=(if quick { 6usize } else { 9 }) {
+        let mut steps = vec![0usize, n / 2, n - 1]; steps.dedup();
+        for &k in &steps { for rep in 0..(if quick { 1 } else { 3 }) { t += 1;
+            let tys: Vec<&str> = if quick { let a = TYS[t % 3]; if a == "rat" { vec!["rat"] } else { vec![a, "rat"] } } else { TYS.to_vec() };
+            for ty in tys { let cx = ty == "cx"; let exact = ty == "rat";
+                let mut made = None;
+                for _try in 0..60 {
+                    let (m1, m2) = if n == 1 { (0, 0) } else { (rng.gen_range(0..n.min(4)), rng.gen_range(0..n.min(4))) };
+                    let mut band = rand_band_int(rng, n, m1, m2, -3, 3); if cx { band = with_im(rng, band, -2, 2); }
+                    zero_column(&mut band, k);
+                    // the repairing assignment: an in-band entry (i, k) and values v, v2 that make the (real part of the) matrix regular
+                    let rows: Vec<usize> = (0..n).filter(|i| in_band(n, m1, m2, *i, k)).collect();
+                    let i = rows[rng.gen_range(0..rows.len())];
+                    let mut a = dense_of(&band); let b: Vec<i64> = (0..n).map(|_| rng.gen_range(-5..=5)).collect();
+                    let v = [1i64, -1, 2, 3][rng.gen_range(0..4)]; let v2 = [-2i64, 5, 1][rng.gen_range(0..3)];
+                    a[i][k] = v as i128; let d1 = bareiss(&a).0; let a1 = a.clone();
+                    let mut a2: Vec<Vec<i128>> = dense_of(&band).iter().map(|r| r.iter().map(|x| 2 * x).collect()).collect(); a2[i][k] = v2 as i128; let d2 = bareiss(&a2).0;
+                    if d1 == 0 || d2 == 0 { continue; }
+                    if exact && !(fits_tlc(&a1, &b) && fits_tlc(&a2, &b) && fits_tlc(&dense_of(&band).iter().map(|r| r.iter().map(|x| 2 * x).collect()).collect::<Vec<Vec<i128>>>(), &b)) { continue; }
+                    made = Some((m1, m2, band, i, v, v2, b)); break;
+                }
+                let (m1, m2, band, i, v, v2, b) = match made { Some(x) => x, None => continue };
+                let bi = rand_vec_json(rng, n, -5, 5);
+                let solve = |name: &str, len: usize| -> Value { let mut bb = b.clone(); bb.resize(len, 1); let mut o = json!({"op": name, "b": bb}); if cx { let mut z: Vec<Value> = bi.as_array().unwrap().clone(); z.resize(len, json!(1)); o["bi"] = Value::from(z); } o };
+                let set = |x: i64| -> Value { if cx { json!({"op": "set", "i": i, "j": k, "x": x, "xi": 0}) } else { json!({"op": "set", "i": i, "j": k, "x": x}) } };
+                // other objects: a regular one (identity-like diagonal plus band noise is checked by the trace spec itself) and a singular one
+                let other = |rng: &mut StdRng, singular: bool| -> Value {
+                    let n2 = rng.gen_range(1..=4usize); let (p, q) = (rng.gen_range(0..n2), rng.gen_range(0..n2));
+                    let mut o = rand_band_int(rng, n2, p, q, -2, 2); if cx { o = with_im(rng, o, -2, 2); }
+                    if singular { zero_column(&mut o, n2 - 1); }
+                    let b2: Vec<i64> = (0..n2).map(|_| rng.gen_range(-5..=5)).collect();
+                    let mut sv = json!({"op": "solve", "b": b2}); if cx { sv["bi"] = rand_vec_json(rng, n2, -5, 5); }
+                    let fit = !exact || fits_tlc(&dense_of(&o), &b2);
+                    let ops = if fit { vec![sv.clone(), json!({"op": "det"}), sv, json!({"op": "dense"})] } else { vec![json!({"op": "dense"})] };
+                    json!({"op": "other", "case": {"kind": "hist", "ty": ty, "band": o, "ops": ops}}) };
+                let mut ops = vec![];
+                // singular object: refused (or whatever) solve, then everything again
+                ops.extend([solve("solve", n), solve("solve", n), json!({"op": "det"}), solve("clone_solve", n), json!({"op": "clone_det"}), json!({"op": "dense"}), json!({"op": "dims"})]);
+                ops.extend([solve("solve", n + 1), solve("solve", n), json!({"op": "det"})]);
+                if n > 1 { ops.extend([solve("solve", n - 1), json!({"op": "det"})]); }
+                ops.extend([json!({"op": "get", "i": n, "j": n}), set(7).as_object().map(|m| { let mut m = m.clone(); m.insert("i".into(), json!(n)); m.insert("j".into(), json!(n)); Value::Object(m) }).unwrap(), json!({"op": "det"}), solve("solve", n)]);
+                ops.push(other(rng, false)); ops.push(solve("solve", n)); ops.push(other(rng, true)); ops.push(json!({"op": "det"}));
+                // mutators that keep it singular
+                ops.extend([set(0), solve("solve", n), json!({"op": "det"})]);
+                // repaired: now everything must be right - and stay right
+                ops.extend([set(v), json!({"op": "det"}), solve("solve", n), solve("solve", n), solve("clone_solve", n), solve("solve", n + 1), solve("solve", n), json!({"op": "dense"})]);
+                // broken again, scaled (still singular), repaired with another value
+                ops.extend([set(0), solve("solve", n), json!({"op": "det"}), solve("solve", n), json!({"op": "mul_assign", "s": 2}), solve("solve", n), json!({"op": "det"})]);
+                ops.push(other(rng, true));
+                ops.extend([set(v2), solve("solve", n), json!({"op": "det"}), json!({"op": "clone_det"}), json!({"op": "dense"})]);
+                let _ = (m1, m2, rep);
+                push(json!({"kind": "seq", "fam": "poison", "step": k, "ty": ty, "band": band, "ops": ops}));
+            }
+        } }
     }
 }
